@@ -1,0 +1,45 @@
+//go:build verif
+
+package client
+
+import (
+	"errors"
+
+	"github.com/nspcc-dev/neo-go/pkg/crypto/keys"
+	"github.com/nspcc-dev/neo-go/pkg/rpcclient"
+	"github.com/nspcc-dev/neo-go/pkg/rpcclient/actor"
+	"github.com/nspcc-dev/neo-go/pkg/wallet"
+	"go.uber.org/zap"
+)
+
+// ErrVerifNotaryRecorded is returned by NotarySignAndInvokeTX of a client made by
+// VerifNewClient right after the invocation has been reported to the callback.
+var ErrVerifNotaryRecorded = errors.New("verif: notary invocation recorded")
+
+// VerifNewClient builds a Client over an already initialised plain JSON-RPC
+// client (no web socket, no subscriptions) for the verification harness, which
+// points it to an in-process fake RPC server. Every NotarySignAndInvokeTX call is
+// reported to onNotary (through the alphabet key source, the first thing the
+// method consults) and then fails with ErrVerifNotaryRecorded.
+func VerifNewClient(rpc *rpcclient.Client, acc *wallet.Account, onNotary func()) (*Client, error) {
+	act, err := actor.NewSimple(rpc, acc)
+	if err != nil {
+		return nil, err
+	}
+	ws := new(rpcclient.WSClient)
+	ws.Client = *rpc //nolint:govet // harness only: the copy shares the request function of rpc
+	c := &Client{
+		logger:    zap.NewNop(),
+		acc:       acc,
+		accAddr:   acc.ScriptHash(),
+		closeChan: make(chan struct{}),
+		notary: &notaryInfo{
+			alphabetSource: func() (keys.PublicKeys, error) {
+				onNotary()
+				return nil, ErrVerifNotaryRecorded
+			},
+		},
+	}
+	c.conn.Store(&connection{client: ws, rpcActor: act, rpcProxyActor: act})
+	return c, nil
+}
